@@ -17,7 +17,8 @@ Require Import Cirbo.Generated.SearchTables Cirbo.Generated.GateTypes.
 Require Import Cirbo.Proofs.SearchTablesFacts Cirbo.Proofs.SearchFacts Cirbo.Proofs.SearchSound
                Cirbo.Proofs.SearchComplete Cirbo.Proofs.SearchSolve Cirbo.Proofs.SearchTyped
                Cirbo.Proofs.SearchSolverExists.
-Require Import Cirbo.Model.SearchPy Cirbo.Generated.SearchEncGen Cirbo.Proofs.SearchEncGenLib Cirbo.Proofs.SearchEncGenB.
+Require Import Cirbo.Model.SearchPy Cirbo.Generated.SearchEncGen Cirbo.Proofs.SearchEncGenLib Cirbo.Proofs.SearchEncGenB
+               Cirbo.Proofs.SearchEncGenC.
 Local Open Scope nat_scope.
 
 (* ---------- the regenerated tables (translator T3) ------------------- *)
@@ -130,7 +131,7 @@ Proof. exact validb_spec. Qed.
    cons_clauses as one result.  Each regenerated method EQUALS the hand model above: clause list in order, flags,
    error raised. *)
 Theorem C06_encoder_regenerated :
-  (forall sp, gen___init__ (fm_of sp) (sp_r sp) (sp_norm sp) (sp_basis sp) (sp_forb sp) = fin sp [] true true)
+  ((forall sp, gen___init__ (fm_of sp) (sp_r sp) (sp_norm sp) (sp_basis sp) (sp_forb sp) = fin sp [] true true)
   /\ (forall sp c b1 b2, f__cnf (fin sp c b1 b2) = c /\ f__need_check_db (fin sp c b1 b2) = b1 /\
                          f__need_init_cnf (fin sp c b1 b2) = b2)
   /\ (forall sp c b1 b2 g a b, In g (internal sp) -> a < b -> b < g ->
@@ -154,8 +155,16 @@ Theorem C06_encoder_regenerated :
         gen_get_cnf (fin sp c b1 binit) =
         let c' := if binit then c ++ default_cnf sp else c in SOk (fin sp c' b1 false, c'))
   /\ (forall sp, table_ok sp -> (forall k, In k (sp_pre sp ++ sp_post sp) -> constraint_ok sp k = true) ->
-        gen_session sp = SOk (encode sp)).
-Proof. exact encoder_regenerated. Qed.
+        gen_session sp = SOk (encode sp)))
+  (* the DECODER _get_circuit_by_model on a model list (asg_of_model: v is true iff its positive literal is in
+     the list) that says something about every predecessor variable (the source asserts it), sets no output
+     variable at an input gate (such names are not in the pool when the solver runs) and selects a pair for
+     every gate: the Circuit built by decode + _tt_to_gate_type + build_circuit, or the same error *)
+  /\ (forall sp c b1 b2 model ck, model_total sp model -> no_input_outputs sp model ->
+        decode sp (asg_of_model model) = Ok ck ->
+        gen__get_circuit_by_model (fin sp c b1 b2) model =
+        lift (build_circuit (sp_n sp) (to_typed tt_to_gate_type ck))).
+Proof. exact encoder_decoder_regenerated. Qed.
 
 (* ---------- non-vacuity ---------------------------------------------- *)
 (* x0 xor x1 with a don't-care, one gate, basis XAIG (forbidden = the five other operations),
@@ -192,6 +201,28 @@ Proof.
   split; [repeat constructor|].
   apply encoder_regenerated; [repeat constructor|].
   intros k Hk. pose proof C06_example_wf as W. apply (wf_cons _ W). exact Hk.
+Qed.
+
+(* the regenerated decoder on the model list of ex_sigma: the hypotheses of the decoder clause hold *)
+Definition ex_model : list lit :=
+  map pos [VS 2 0 1; VG 0 2; VX 1 1; VX 0 3; VX 1 3; VX 2 1; VF 2 false true; VF 2 true false].
+
+Example C06_example_regenerated_decoder :
+  model_total ex_spec ex_model /\ no_input_outputs ex_spec ex_model /\
+  decode ex_spec (asg_of_model ex_model) = Ok (mkCkt [mkSG 0 1 (false, true, true, false)] [2]) /\
+  gen__get_circuit_by_model (fin ex_spec [] true true) ex_model =
+  lift (build_circuit 2 (mkTCkt [mkTG 0 1 XOR] [2])).
+Proof.
+  assert (Ht : model_total ex_spec ex_model).
+  { intros g a b Hg Hab Hbg. apply in_internal in Hg. cbn in Hg.
+    assert (g = 2) by lia. assert (b = 1) by lia. assert (a = 0) by lia. subst. left. reflexivity. }
+  assert (Hn : no_input_outputs ex_spec ex_model).
+  { intros h i Hh Hi. cbn in Hh, Hi. assert (h = 0) by lia. subst.
+    destruct i as [|[|i]]; [reflexivity|reflexivity|lia]. }
+  assert (Hd : decode ex_spec (asg_of_model ex_model) = Ok (mkCkt [mkSG 0 1 (false, true, true, false)] [2]))
+    by (vm_compute; reflexivity).
+  split; [exact Ht|]. split; [exact Hn|]. split; [exact Hd|].
+  exact (proj2 C06_encoder_regenerated ex_spec [] true true ex_model _ Ht Hn Hd).
 Qed.
 
 (* the class can be empty: one input leaves no pair of predecessors for the first gate, the CNF
